@@ -38,9 +38,10 @@
 (*           line is not aligned with the text of its item as in the example; *)
 (*           blankin: a blank line inside an item.  The verdict of a section  *)
 (*           with one of these is drift, never a violation                    *)
-(*   blanksub  an item with indentation > 0 followed a blank line (the       *)
-(*           documentation says the blank line is ignored; skoolkit's        *)
-(*           present reader starts again at the top level: SkBlankRestarts)  *)
+(*   blanksub  an item with indentation > 0 followed a blank line: the      *)
+(*           documentation says the blank line is ignored, so the item goes   *)
+(*           where it would go without it (up to skoolkit 64ba54a~1 the       *)
+(*           reader started again at the top level there: SkBlankRestarted)   *)
 (***************************************************************************)
 EXTENDS Naturals, Integers, Sequences, FiniteSets
 
@@ -142,9 +143,10 @@ Balanced(q) ==
 ItemTexts(q) == LET s == SelectSeq(q, LAMBDA t : t[1] = -3) IN [i \in 1..Len(s) |-> Tail(s[i])]
 ItemDepths(q) == LET idx == SelectSeq([i \in 1..Len(q) |-> i], LAMBDA i : q[i][1] = -3) IN [k \in 1..Len(idx) |-> UlDepth(q, idx[k])]
 
-\* ---- skoolkit's present reader, where it leaves the documentation (named, not used for verdicts) --------------------
-\* HtmlWriter._build_box_page_list_entries reads the paragraphs after the intro one by one and starts every paragraph with
-\* the top-level list alone on its stack: an indented item after a blank line becomes THE sublist of the last top-level item
-\* (replacing the one it had) instead of being read as if the blank line were not there.
-SkBlankRestarts == TRUE
+\* ---- where skoolkit's reader left the documentation (named, not used for verdicts) ---------------------------------
+\* Until commit 64ba54a HtmlWriter._build_box_page_list_entries read the paragraphs after the intro one by one and started every
+\* paragraph with the top-level list alone on its stack: an indented item after a blank line became THE sublist of the last
+\* top-level item (replacing the one it had) instead of being read as if the blank line were not there.  Repaired; sections
+\* with blanksub are judged in full (BoxCases clause list:<type>:blank-line-before-subitem).
+SkBlankRestarted == TRUE
 =============================================================================
